@@ -28,8 +28,12 @@ TRUSTED = ['correspondence harness (pv.engine, pv.proto) and generators / refere
            'Lean driver parser/printer (PygModel/Basic.lean, GroupDriver.lean)']
 ASSUMPTIONS = ['pyg_base.sort orders the (key, row id) pairs as the model of C07 does',
                'dictable construction from rows / records (dictable(xs, by), concat, __call__) is modelled only as far as these methods use it',
-               'pivot: y values are strings or ints (other values become non-string column keys) and distinct as labels; NaN is not used as a y value '
-               '(identity-dependent python dict key); tables handed to pivot have at least one row; aggregators: None, len, first, last',
+               'pivot: y values are None / ints / floats / strings / datetimes; an int y becomes the column key str(y), every other y value is the column key itself '
+               '(a float / datetime / None key of the dict): the model names such a key U+0000 + its wire atom and the runner encodes the implementation\'s '
+               'column keys (and the y column of unpivot, which lists them) the same way; string cells do not start with U+0000; two y values with one column key '
+               '(1 beside \'1\') or a key equal to an x column name: ValueError (defect P1, fixed); NaN / bools are not used as y values '
+               '(dict keys by identity / equal to 1, 0); datetime.date objects are not generated (a date beside the equal datetime raises KeyError: outside the quantifier); '
+               'tables handed to pivot have at least one row; aggregators: None, len, first, last',
                'cells are scalars (None, ints, quarter floats, strings, datetimes); NaN appears in key columns of listby/groupby only']
 CALL_TIMEOUT = 8
 D = datetime.datetime
@@ -76,17 +80,25 @@ def gen_by(rng, names):
     return ['zz'], 'missing'
 
 
+# y values: what becomes of them as column keys (ints through str, everything else the object itself)
+YPOOLS = [(['p', 'q', 'r'], 'str'), ([1, 2, 3], 'int'), (['p', 1, 'q', 2], 'str-int'), (['p'], 'str'),
+          ([0.5, 1.5, 2.5, -0.25], 'float'), ([D(2020, 1, 1), D(2020, 1, 2, 12), D(2021, 5, 5)], 'datetime'),
+          ([None, 'p', 'q'], 'none'), ([None, 1.5, 'p', D(2020, 1, 1), 2], 'mixed'), (['1.5', 1.5, 'None', None], 'str-vs-object'),
+          ([1, 1.0, 2.5, 2], 'int-float-equal'),
+          ([1, '1', 2], 'collide-int-str'), ([1, '1', 'p', -3, '-3'], 'collide-int-str'), (['a', 'p', 'q'], 'collide-x-name')]
+
+
 def gen_pivot(rng):
     n = rng.choice([1, 2, 3, 4, 5, 6, 8])
     nx = rng.choice([1, 1, 2])
     xn = ['a', 'b'][:nx]
     t = [(k, [rng.choice(rng.sample(KEYS, 3) if rng.random() < 0.8 else KEYS) for _ in range(n)]) for k in xn]
-    ypool = rng.choice([['p', 'q', 'r'], [1, 2, 3], ['p', 1, 'q', 2], ['p']])
+    ypool, ykind = rng.choice(YPOOLS)
     if rng.random() < 0.25:
         # y labels that are substrings of an x column's name (x passed as a plain string when there is one x column)
         xn = [['name'], ['name', 'date']][nx - 1]
         t = [(k2, v) for k2, (_, v) in zip(xn, t)]
-        ypool = rng.choice([['a', 'e', 'me', 'q'], ['na', 't', 'am'], ['n', 'name2', 'd']])
+        ypool, ykind = rng.choice([['a', 'e', 'me', 'q'], ['na', 't', 'am'], ['n', 'name2', 'd']]), 'substr'
     t.append(('y', [rng.choice(ypool) for _ in range(n)]))
     t.append(('z', [rng.choice([1, 2, 3, 4, 0.5, 'u', 'w']) if rng.random() < 0.9 else None for _ in range(n)]))
     if rng.random() < 0.3:     # unique (x, y): the invertible case
@@ -99,7 +111,7 @@ def gen_pivot(rng):
                 keep.append(i)
         t = [(k, [v[i] for i in keep]) for k, v in t]
     agg = rng.choice(['none', 'len', 'first', 'last', 'last'])
-    return t, xn, agg
+    return t, xn, agg, ykind
 
 
 def generate(rng, tier):
@@ -115,11 +127,21 @@ def generate(rng, tier):
             by, kind = gen_by(rng, [k for k, _ in t])
             yield dict(tag='groupby-' + kind, lines=['(group gu %s %s sp:%s)' % (enc_table(t), enc_names(by), rng.choice('sl'))])
         else:
-            t, xn, agg = gen_pivot(rng)
+            t, xn, agg, ykind = gen_pivot(rng)
             if rng.random() < 0.04:
                 yield dict(tag='pivot-missing', lines=['(group pv %s %s S:%s S:%s %s)' % (enc_table(t), enc_names(xn), hexs('y'), hexs('zz'), agg)])
             else:
-                yield dict(tag='pivot-' + agg, lines=['(group pv %s %s S:%s S:%s %s)' % (enc_table(t), enc_names(xn), hexs('y'), hexs('z'), agg)])
+                yield dict(tag='pivot-%s-y-%s' % (agg, ykind), lines=['(group pv %s %s S:%s S:%s %s)' % (enc_table(t), enc_names(xn), hexs('y'), hexs('z'), agg)])
+
+
+def key_name(k):
+    """a column key of a pivot table as the model names it: a string is its own name, any other key (float, datetime, None) is U+0000 + its wire atom"""
+    return k if isinstance(k, str) else '\x00' + enc(k)
+
+
+def enc_keyed(d, ycol=None):
+    """a pivot table (column keys may be non-strings) / its unpivot (the column `ycol` lists column keys)"""
+    return '(D' + ''.join(' (%s %s)' % (hexs(key_name(k)), enc([key_name(c) for c in v] if ycol is not None and k == ycol else list(v))) for k, v in d.items()) + ')'
 
 
 AGGS = {'none': None, 'len': len, 'first': lambda v: v[0], 'last': lambda v: v[-1]}
@@ -144,7 +166,7 @@ def run_line(state, sx):
         xs = x[0] if len(x) == 1 else x
         p = guarded(lambda: d.xyz(xs, y, z, agg))
         u = guarded(lambda: p.unpivot(xs, y, z))
-        return 'ok (T %s %s %s)' % (enc_dictable(p), enc_dictable(u), enc_dictable(d))
+        return 'ok (T %s %s %s)' % (enc_keyed(p), enc_keyed(u, ycol=y), enc_dictable(d))
     return 'bad-op'
 
 
@@ -157,6 +179,9 @@ def compare(case, i, line, ir, mr):
         return None
     if ir.startswith('err') and mr.startswith('ok'):
         return 'the round trip raised (%s) where the statement prescribes a table' % ir
+    if ir.startswith('ok') and mr == 'err ValueError' and proto.parse(line)[1] == 'pv':
+        return ('pivot returned a table although two y values give the same column key (or a key is an x column name): the later column silently '
+                'replaced the earlier one, so a row\'s z is not in the cell addressed by its x key and y value (P1)')
     if ir.startswith('ok') and mr.startswith('ok'):
         a, b = proto.parse(ir[3:]), proto.parse(mr[3:])
         names = ['regrouped table', 'inverse', 'operand afterwards']
@@ -208,6 +233,26 @@ def canon_py(v):
 
 def rows_of(d, cols):
     return [tuple(canon_py(d[c][i]) for c in cols) for i in range(len(d))]
+
+
+def render_key(v):
+    """y rendered as a column key: ints through str (dictable.__init__), every other value is the key itself"""
+    return str(v) if isinstance(v, int) and not isinstance(v, bool) else v
+
+
+def same_key(a, b):
+    """python dict-key equality between two rendered column keys"""
+    return type(a) is type(b) and a == b if isinstance(a, str) or isinstance(b, str) else keq(a, b)
+
+
+def col_of(c, y):
+    """is `c` (a column key of the pivot table) the column of the y value `y`?  the key is rendered from the group's representative, which is
+    `y` up to numeric equality: 1.0 for y = 1 (a float key) or '1' for y = 1.0"""
+    if isinstance(y, str) or y is None or isinstance(y, datetime.datetime):
+        return same_key(c, y)
+    if isinstance(c, str):          # rendered from an int representative
+        return float(y).is_integer() and c == str(int(y))
+    return isinstance(c, (int, float)) and not isinstance(c, bool) and keq(c, y)
 
 
 def laws(rng, tier, ctx):
@@ -271,12 +316,20 @@ def laws(rng, tier, ctx):
             yield Finding('violation', gcase, 'ungroup(groupby) is not the original multiset of rows')
     m = 200 if tier == 'quick' else 3000
     for _ in range(m):
-        t, xn, agg = gen_pivot(rng)
+        t, xn, agg, ykind = gen_pivot(rng)
         line = '(group pv %s %s S:%s S:%s none)' % (enc_table(t), enc_names(xn), hexs('y'), hexs('z'))
-        case = dict(tag='law-pivot', lines=[line])
+        case = dict(tag='law-pivot-y-' + ykind, lines=[line])
         d = dec_table(proto.parse(line)[2])
         xs = xn[0] if len(xn) == 1 else xn
         count += 1
+        n = len(d)
+        # distinct y values (key equality of the statement) must get distinct column keys, different from the x names: otherwise no table can hold them
+        ys = []
+        for v in d['y']:
+            if not any(keq(v, w) for w in ys):
+                ys.append(v)
+        keys_ = [render_key(v) for v in ys]
+        collide = any(same_key(keys_[i], keys_[j]) for i in range(len(ys)) for j in range(i)) or any(isinstance(k, str) and k in xn for k in keys_)
         try:
             P = guarded(lambda: d.xyz(xs, 'y', 'z'))
             Q = guarded(lambda: d.xyz(xs, 'y', 'z', lambda v: v[-1]))
@@ -284,30 +337,47 @@ def laws(rng, tier, ctx):
         except Timeout:
             yield Finding('violation', case, 'pivot did not return')
             continue
+        except ValueError:
+            if not collide:
+                yield Finding('violation', case, 'pivot / unpivot raised ValueError on a valid call')
+            continue
         except Exception as e:
             yield Finding('violation', case, 'pivot / unpivot raised %s on a valid call' % type(e).__name__)
             continue
-        n = len(d)
         xk = list(zip(*[d[k] for k in xn]))
         pk = list(zip(*[P[k] for k in xn]))
         same = lambda p, q: all(keq(a, b) for a, b in zip(p, q))   # noqa: E731
         labels = [c for c in P.keys() if c not in xn]
         msg = None
-        for g in range(len(P)):
-            for lab in labels:
-                members = [d['z'][i] for i in range(n) if same(xk[i], pk[g]) and str(d['y'][i]) == lab]
-                got = P[lab][g]
-                if (got is None) != (len(members) == 0) or (got is not None and canon_py(list(got)) != canon_py(members)):
-                    msg = 'pivot cell (x=%r, y=%s) is %r, the rows there have z = %r' % (pk[g], lab, got, members)
-        if any(sum(same(p, k) for p in pk) != 1 for k in xk) or any(str(y) not in labels for y in d['y']):
-            msg = 'a row has no (single) cell addressed by its x key and y value'
+        colkey = {}
+        if any(sum(same(p, k) for p in pk) != 1 for k in xk):
+            msg = 'a row has no (single) pivot row for its x key'
+        for i in range(n):
+            if msg:
+                break
+            # the cell addressed by row i: the pivot row of its x key, the column of its y value
+            cols = [c for c in labels if col_of(c, d['y'][i])]
+            if len(cols) != 1:
+                msg = 'row %d (y = %r) is addressed by %d columns of the pivot table %r' % (i, d['y'][i], len(cols), labels)
+                break
+            colkey[i] = cols[0]
+            g = [g for g in range(len(P)) if same(pk[g], xk[i])][0]
+            members = [d['z'][j] for j in range(n) if same(xk[j], xk[i]) and keq(d['y'][j], d['y'][i])]
+            got = P[cols[0]][g]
+            if got is None or canon_py(list(got)) != canon_py(members):
+                msg = 'pivot cell (x=%r, y=%r) is %r, the rows there have z = %r' % (xk[i], d['y'][i], got, members)
         if msg is None:
-            uniq = all(not (same(xk[i], xk[j]) and str(d['y'][i]) == str(d['y'][j])) for i in range(n) for j in range(i))
+            for g in range(len(P)):
+                for lab in labels:
+                    if P[lab][g] is not None and not any(same(xk[i], pk[g]) and col_of(lab, d['y'][i]) for i in range(n)):
+                        msg = 'pivot cell (x=%r, column %r) is %r but no row is there' % (pk[g], lab, P[lab][g])
+        if msg is None:
+            uniq = all(not (same(xk[i], xk[j]) and keq(d['y'][i], d['y'][j])) for i in range(n) for j in range(i))
             if uniq and all(z is not None for z in d['z']):
                 got = Counter(r for r in rows_of(U, xn + ['y', 'z']) if r[-1] != ('N',))
-                want = Counter(tuple(canon_py(d[c][i]) for c in xn) + (canon_py(str(d['y'][i])), canon_py(d['z'][i])) for i in range(n))
+                want = Counter(tuple(canon_py(d[c][i]) for c in xn) + (canon_py(colkey[i]), canon_py(d['z'][i])) for i in range(n))   # colkey: y rendered as column key (of its group's representative: '1' or 1.0 for 1 beside 1.0)
                 if got != want:
-                    msg = 'unpivot(pivot) without the None cells is not the original (x, y, z) rows'
+                    msg = 'unpivot(pivot) without the None cells is not the original (x, y, z) rows with y rendered as column keys'
         if msg:
             yield Finding('violation', case, msg)
     yield count
